@@ -32,3 +32,8 @@ def opClean (args : List Sexp) : String :=
   | _ => "bad-op"
 
 end Restli.CleanDir
+
+namespace Restli.CleanDir
+-- driver-ops: Restli.CleanDir.ops
+def ops : List (String × (List Restli.Sexp → String)) := [("clean", opClean)]
+end Restli.CleanDir
